@@ -70,7 +70,9 @@ ResetTo(c) ==
   /\ dial' = [p \in DOMAIN c |-> NoDial]
   /\ now' = 0
   /\ out' = <<>>
-  /\ gh' = [sess |-> [p \in DOMAIN c |-> "none"], nsess |-> [p \in DOMAIN c |-> 0], bad |-> {}]
+  /\ gh' = [sess |-> [p \in DOMAIN c |-> "none"], nsess |-> [p \in DOMAIN c |-> 0],
+            released |-> [p \in DOMAIN c |-> {}], ncb |-> [p \in DOMAIN c |-> [n \in CbNames |-> 0]],
+            bad |-> {}]
   /\ target' = 0
 
 TraceInit ==
@@ -86,7 +88,9 @@ TraceInit ==
   /\ dial = [p \in DOMAIN cfg |-> NoDial]
   /\ now = 0
   /\ out = <<>>
-  /\ gh = [sess |-> [p \in DOMAIN cfg |-> "none"], nsess |-> [p \in DOMAIN cfg |-> 0], bad |-> {}]
+  /\ gh = [sess |-> [p \in DOMAIN cfg |-> "none"], nsess |-> [p \in DOMAIN cfg |-> 0],
+           released |-> [p \in DOMAIN cfg |-> {}], ncb |-> [p \in DOMAIN cfg |-> [n \in CbNames |-> 0]],
+           bad |-> {}]
   /\ target = 0
 
 AtLine == l <= Len(Trace)
@@ -129,6 +133,7 @@ TraceStim ==
        [] s.op = "rclose" -> EnvRClose(s.conn) /\ UNCHANGED target
        [] s.op = "rreset" -> EnvReset(s.conn) /\ UNCHANGED target
        [] s.op = "lisFail" -> EnvLisFail /\ UNCHANGED target
+       [] s.op = "release" -> EnvRelease(s.peer, [n |-> s.call, k |-> s.w]) /\ UNCHANGED target
        [] s.op = "advance" -> target' = now + s.d /\ UNCHANGED vars
        [] s.op = "nop" -> UNCHANGED <<vars, target>>
 
